@@ -211,9 +211,11 @@ class NamedObject:
       # hardware objects it holds)
       elif isinstance( obj, list ) and any( isinstance( x, (NamedObject, list) ) for x in obj ):
         fields = sd.NamedObject_fields
-        if name in fields:
-          if getattr( s, name ) is obj:
-            return
+        if name in fields and getattr( s, name ) is obj:
+          # s.x += [ obj ] hands the same, longer list over again: the
+          # elements that are new still have to be named and constructed
+          pass
+        elif name in fields:
           raise FieldReassignError(f"The attempt to assign hardware construct to field {name} is illegal:\n"
                                    f" - top{repr(s)[1:]} already has field {name} with type {type(getattr( s, name ))}.")
         fields.add( name )
@@ -225,6 +227,8 @@ class NamedObject:
 
           if isinstance( u, NamedObject ):
             ud = u._dsl
+            if hasattr( ud, "full_name" ) and ud.parent_obj is s:
+              continue # named by an earlier assignment of this list
 
             ud.parent_obj = s
             ud.level      = sd.level + 1
